@@ -1,4 +1,4 @@
-import Proofs.ParseMessageOpt
+import Proofs.ParseTsig
 /-! A truncated rendering parses: the kept prefix of a well-formed message is a well-formed message. -/
 namespace Model
 
@@ -49,6 +49,32 @@ theorem MsgOkE.cut {m : Message} (h : MsgOkE m) (k : Nat) (tc : Bool) : MsgOkE (
   obtain ⟨c1, c2, c3, c4⟩ := h.counts
   have htc : ConstsC03.tcFlag < 2 ^ 16 := by decide
   refine ⟨h.origin, h.id, ?_, ?_, h.opt, h.pad, h.noTsig, ?_, ?_, ?_, ?_, ?_, ?_, ?_, ?_⟩
+  · simp only [Message.cut]
+    split
+    · exact Nat.or_lt_two_pow (by simpa using h.flags) htc
+    · exact h.flags
+  · simp only [Message.cut]
+    split
+    · rw [isUpdate_or_tc]; exact h.notUpdate
+    · exact h.notUpdate
+  · intro r hr; exact h.q r (List.mem_of_mem_take hr)
+  · intro r hr; exact h.an r (List.mem_of_mem_take hr)
+  · intro r hr; exact h.au r (List.mem_of_mem_take hr)
+  · intro r hr; exact h.ad r (List.mem_of_mem_take hr)
+  · exact h.keysAn.sublist (List.take_sublist _ _)
+  · exact h.keysAu.sublist (List.take_sublist _ _)
+  · exact h.keysAd.sublist (List.take_sublist _ _)
+  · simp only [Message.cut]
+    refine ⟨?_, ?_, ?_, ?_⟩
+    · have := List.length_take_le' k m.q; omega
+    · have := rrCount_take_le m.an (k - m.q.length); omega
+    · have := rrCount_take_le m.au (k - m.q.length - m.an.length); omega
+    · have := rrCount_take_le m.ad (k - m.q.length - m.an.length - m.au.length); omega
+
+theorem MsgOkT.cut {m : Message} (h : MsgOkT m) (k : Nat) (tc : Bool) : MsgOkT (m.cut k tc) := by
+  obtain ⟨c1, c2, c3, c4⟩ := h.counts
+  have htc : ConstsC03.tcFlag < 2 ^ 16 := by decide
+  refine ⟨h.origin, h.id, ?_, ?_, h.opt, h.pad, h.tsig, ?_, ?_, ?_, ?_, ?_, ?_, ?_, ?_⟩
   · simp only [Message.cut]
     split
     · exact Nat.or_lt_two_pow (by simpa using h.flags) htc
